@@ -39,6 +39,9 @@ type Muxer struct {
 	closed    bool
 
 	logger *xlog.Logger // 日志对象
+
+	// 视频参数集是否已齐备；SDP 未携带参数集时要等带内参数集到齐，此前无法生成解码配置
+	videoReady bool
 }
 
 // NewMuxer .
@@ -63,6 +66,8 @@ func NewMuxer(videoMeta *codec.VideoMeta, audioMeta *codec.AudioMeta, tagWriter 
 		return nil, fmt.Errorf("flv muxer unsupport video codec type:%s", videoMeta.Codec)
 	}
 
+	muxer.videoReady = videoParamsComplete(videoMeta)
+
 	if audioMeta.Codec == "AAC" {
 		muxer.typeFlags |= TypeFlagsAudio
 		muxer.ap = NewAacPacketizer(audioMeta, tagWriter)
@@ -70,6 +75,17 @@ func NewMuxer(videoMeta *codec.VideoMeta, audioMeta *codec.AudioMeta, tagWriter 
 
 	go muxer.process()
 	return muxer, nil
+}
+
+// videoParamsComplete 生成解码配置所需的参数集是否已齐备
+func videoParamsComplete(vm *codec.VideoMeta) bool {
+	switch vm.Codec {
+	case "H264":
+		return len(vm.Sps) > 0 && len(vm.Pps) > 0
+	case "H265":
+		return len(vm.Vps) > 0 && len(vm.Sps) > 0 && len(vm.Pps) > 0
+	}
+	return true
 }
 
 // WriteFrame .
@@ -136,6 +152,14 @@ func (muxer *Muxer) processFrame(frame *codec.Frame, packSequenceHeader *bool) {
 	}()
 
 	if !*packSequenceHeader {
+		if !muxer.videoReady {
+			// 解包器在参数集到齐后才放行视频帧，因此只在收到视频帧时检查（经队列同步，读取安全）；
+			// 此前到达的帧（音频先到）无法被解码，丢弃，而不是用不完整的参数集生成解码配置
+			if frame.MediaType != codec.MediaTypeVideo || !videoParamsComplete(muxer.videoMeta) {
+				return
+			}
+			muxer.videoReady = true
+		}
 		muxer.muxMetadataTag()
 		muxer.vp.PacketizeSequenceHeader()
 		muxer.ap.PacketizeSequenceHeader()
